@@ -8,7 +8,7 @@ wt=/var/tmp/seedwt-$id-$$
 git -C /repo worktree add -q --detach $wt HEAD || exit 9
 cleanup() { git -C /repo worktree remove --force $wt >/dev/null 2>&1; rm -rf $wt; }
 trap cleanup EXIT
-if ! git -C $wt apply --3way /verif/seeded/$id/patch.diff >/dev/null 2>&1; then echo "$id $prop APPLY-FAILED"; exit 8; fi
+if ! git -C $wt apply --3way $( [ -f /verif/seeded/$id/patch_rebased.diff ] && echo /verif/seeded/$id/patch_rebased.diff || echo /verif/seeded/$id/patch.diff ) >/dev/null 2>&1; then echo "$id $prop APPLY-FAILED"; exit 8; fi
 demo_rc=NA
 if [ -f /verif/seeded/$id/demo.py ]; then (cd $wt && PYTHONPATH=$wt timeout 300 /venv/bin/python /verif/seeded/$id/demo.py >/dev/null 2>&1); demo_rc=$?; fi
 out=$(cd /verif && VF_REPO_DIR=$wt ./check $prop --tier $tier 2>&1); rc=$?
